@@ -74,6 +74,11 @@ def _path(rng, maxseg, lead=None):
 def _base(rng, canonical=False):
     """canonical: the text is its own to_text() (no default/zero/padded port), needed when it is
     used as a reference, because the Spec takes the reference text as given."""
+    if not canonical and rng.random() < 0.05:
+        # an empty authority under a scheme that has one ("file:///a/b"): rooted non-empty path
+        segs = _path(rng, 6)
+        return 'file:///' + '/'.join(segs) + (('?' + rng.choice(QUERIES)) if rng.random() < 0.3 else '') \
+               + (('#' + rng.choice(FRAGS)) if rng.random() < 0.3 else '')
     sch = rng.choice(SCHEMES)
     host = rng.choice(HOSTS)
     upper = rng.random() < 0.15          # mixed-case scheme/host: navigate/normalize lower-case them (RFC 6.2.2.1)
@@ -207,7 +212,7 @@ def run_impl(case):
     if case.get("unrooted"):
         # the same URL built the way from_parts' documentation suggests: path_parts=('post', '123')
         pp = tuple(base.path_parts)
-        if len(pp) >= 2 and pp[0] == '' and pp[1] != '':
+        if base.host and len(pp) >= 2 and pp[0] == '' and pp[1] != '':
             base = URL.from_parts(scheme=base.scheme, host=base.host, path_parts=pp[1:],
                                   query_params=base.query_params, fragment=base.fragment, port=base.port,
                                   username=base.username, password=base.password)
@@ -332,6 +337,8 @@ def distribution(d, case, obs):
     _bump(d, "base_built_by", "from_parts(unrooted path_parts)" if case.get("unrooted") else "URL(text)")
     b = case["base"]
     bp = b.split('#')[0].split('?')[0].split('://', 1)[1].partition('/')
+    if not bp[0]:
+        _bump(d, "base_has", "empty authority (file:///...)")
     _bump(d, "base_path", "empty" if not bp[1] else ("root" if not bp[2] else
                                                      ("trailing-slash" if bp[2].endswith('/') else "file")))
     if any(s in ('.', '..') for s in bp[2].split('/')):
